@@ -7,6 +7,7 @@ import (
 	"net"
 	"strconv"
 	"strings"
+	"sync/atomic"
 	"time"
 
 	"github.com/bfenetworks/bfe/bfe_basic"
@@ -161,8 +162,124 @@ func c28Gen(g *vkit.Rand, id int) *c28Case {
 	return c
 }
 
+// Client-side time limits. Every read and write on a C28 connection carries a deadline, so a
+// connection that bfe leaves open cannot hold the run: the exchange is abandoned and judged.
+const (
+	c28Grace      = 10 * time.Second       // silence (nothing received, nothing left to send) after which an open connection is abandoned; well below bfe's 30 s idle timeout
+	c28WriteStall = 15 * time.Second       // one write of <= c28WriteChunk octets makes no progress for this long: bfe stopped reading
+	c28WriteChunk = 256 << 10              // octets per Write call, so that c28WriteStall measures progress and not the size of a segment
+	c28Cap        = 60 * time.Second       // whole exchange
+	c28ReadSlice  = 250 * time.Millisecond // read deadline granularity
+	c28HangBudget = 48                     // abandoned connections after which the remaining cases are not run (two waves of the 24 workers)
+)
+
+type c28Result struct {
+	raw          []byte
+	eof          bool   // bfe ended the connection (FIN or reset)
+	reset        bool   // ... by reset / with an error other than a timeout
+	hung         string // "" | "silent" | "cap": abandoned by the client with the connection still open
+	writeStalled bool   // a write hit c28WriteStall
+	dialFailed   bool
+	notRun       bool
+}
+
+// c28Exchange writes the case on a new connection while reading concurrently, until bfe ends the
+// connection or the limits above say it will not.
+func c28Exchange(addr string, c *c28Case) (res c28Result) {
+	conn, err := net.DialTimeout("tcp", addr, 10*time.Second)
+	if err != nil {
+		res.dialFailed = true
+		return
+	}
+	defer conn.Close()
+	start := time.Now()
+	var lastRx, writerDone atomic.Int64 // unix nanoseconds; writerDone == 0 while there is still something to send
+	var rd c28Result                    // owned by the reader until done is closed
+	done := make(chan struct{})
+	go func() { // reader runs concurrently: responses may arrive while we still write
+		defer close(done)
+		buf := make([]byte, 64<<10)
+		for {
+			conn.SetReadDeadline(time.Now().Add(c28ReadSlice))
+			n, err := conn.Read(buf)
+			if n > 0 {
+				rd.raw = append(rd.raw, buf[:n]...)
+				lastRx.Store(time.Now().UnixNano())
+			}
+			if err == nil {
+				continue
+			}
+			if err == io.EOF {
+				rd.eof = true
+				return
+			}
+			if ne, ok := err.(net.Error); !ok || !ne.Timeout() {
+				// connection reset: bfe closed with unread input. What was received is still judged,
+				// a cut-off tail is tolerated.
+				rd.eof, rd.reset = true, true
+				return
+			}
+			now := time.Now()
+			if now.Sub(start) >= c28Cap {
+				rd.hung = "cap"
+				return
+			}
+			if wd := writerDone.Load(); wd != 0 {
+				since := wd
+				if rx := lastRx.Load(); rx > since {
+					since = rx
+				}
+				if now.Sub(time.Unix(0, since)) >= c28Grace {
+					rd.hung = "silent"
+					return
+				}
+			}
+		}
+	}()
+	data := c.bytes()
+	k := 0
+write:
+	for len(data) > 0 {
+		n := len(data)
+		if len(c.Splits) > 0 {
+			n = c.Splits[k%len(c.Splits)]
+			k++
+			if n > len(data) {
+				n = len(data)
+			}
+		}
+		seg := data[:n]
+		data = data[n:]
+		for len(seg) > 0 {
+			if time.Since(start) >= c28Cap {
+				break write
+			}
+			m := len(seg)
+			if m > c28WriteChunk {
+				m = c28WriteChunk
+			}
+			conn.SetWriteDeadline(time.Now().Add(c28WriteStall))
+			wn, err := conn.Write(seg[:m])
+			seg = seg[wn:]
+			if err != nil {
+				// bfe closed the connection (legitimate after a terminal request), or it stopped reading
+				if ne, ok := err.(net.Error); ok && ne.Timeout() {
+					res.writeStalled = true
+				}
+				break write
+			}
+		}
+	}
+	writerDone.Store(time.Now().UnixNano())
+	<-done
+	stalled := res.writeStalled
+	res = rd
+	res.writeStalled = stalled
+	return
+}
+
 func c28(r *vkit.Run) {
-	r.SetRule("full in-process BFE (MaxHeaderBytes 8192); each connection carries 2-6 pipelined requests drawn from 15 kinds (GET, HEAD, POST with Content-Length / chunked / Expect: 100-continue bodies of 1 B..1.1 MB, the same answered by a module response so that no handler reads the body, HTTP/1.0, Connection: close, a 20 KB header, an unparsable request line, chunked bodies with a malformed chunk-size line both forwarded and left unread by a module response), written in one segment or split at random sizes; request bodies consist of well-formed decoy requests; the client byte stream is parsed by the strict reference response parser: responses must match requests in order (ids echoed by backend/module), at most one final response each, no decoy ever answered or seen by a backend, nothing after a request that ends the connection. Non-trivial = >=2 requests answered or a terminal kind in the middle; distinct = kind/size sequence")
+	r.SetRule("full in-process BFE (MaxHeaderBytes 8192); each connection carries 2-6 pipelined requests drawn from 15 kinds (GET, HEAD, POST with Content-Length / chunked / Expect: 100-continue bodies of 1 B..1.1 MB, the same answered by a module response so that no handler reads the body, HTTP/1.0, Connection: close, a 20 KB header, an unparsable request line, chunked bodies with a malformed chunk-size line both forwarded and left unread by a module response), written in one segment or split at random sizes; request bodies consist of well-formed decoy requests; the client byte stream is parsed by the strict reference response parser: responses must match requests in order (ids echoed by backend/module), at most one final response each, no decoy ever answered or seen by a backend, nothing after a request that ends the connection, and the connection is closed (FIN or reset within 10 s of the last octet, every client read and write carrying a deadline) after a response that ends it: to a request bfe cannot continue after, to a request or with a response carrying Connection: close, or with a close-delimited body. Non-trivial = >=2 requests answered or a terminal kind in the middle; distinct = kind/size sequence")
 	bs := e2e.NewBackendSet()
 	defer bs.Close()
 	be := bs.New("b1", func(x *e2e.Exchange) e2e.Action {
@@ -213,46 +330,19 @@ func c28(r *vkit.Run) {
 			cases = append(cases, c28Gen(r.Rng("case", i), i))
 		}
 	}
-	raws := make([][]byte, len(cases))
-	eofs := make([]bool, len(cases))
-	resets := make([]bool, len(cases))
+	results := make([]c28Result, len(cases))
+	var hungTotal atomic.Int64
 	vkit.Parallel(len(cases), 24, func(i int) {
-		c := cases[i]
-		conn, err := net.DialTimeout("tcp", srv.HTTPAddr, 10*time.Second)
-		if err != nil {
+		if hungTotal.Load() >= c28HangBudget {
+			// the server keeps leaving connections open: the remaining cases would each cost
+			// another c28Grace. They are not run; the run can no longer end as "held".
+			results[i].notRun = true
 			return
 		}
-		defer conn.Close()
-		conn.SetDeadline(time.Now().Add(60 * time.Second))
-		done := make(chan struct{})
-		go func() { // reader runs concurrently: responses may arrive while we still write
-			b, err := io.ReadAll(conn)
-			raws[i] = b
-			eofs[i] = err == nil
-			if ne, ok := err.(net.Error); err != nil && !(ok && ne.Timeout()) {
-				// connection reset: bfe closed with unread input. What was received is still judged,
-				// a cut-off tail is tolerated.
-				eofs[i], resets[i] = true, true
-			}
-			close(done)
-		}()
-		data := c.bytes()
-		k := 0
-		for len(data) > 0 {
-			n := len(data)
-			if len(c.Splits) > 0 {
-				n = c.Splits[k%len(c.Splits)]
-				k++
-				if n > len(data) {
-					n = len(data)
-				}
-			}
-			if _, err := conn.Write(data[:n]); err != nil {
-				break // bfe closed the connection (legitimate after a terminal request)
-			}
-			data = data[n:]
+		results[i] = c28Exchange(srv.HTTPAddr, cases[i])
+		if results[i].hung != "" {
+			hungTotal.Add(1)
 		}
-		<-done
 	})
 	decoyAtBackend := map[string]bool{}
 	arrivals := map[string]int{}
@@ -268,19 +358,28 @@ func c28(r *vkit.Run) {
 			kinds = append(kinds, fmt.Sprintf("%s/%d", q.Kind, q.Blen))
 		}
 		key := strings.Join(kinds, ",")
-		w := map[string]interface{}{"case": c, "kinds": kinds, "client_bytes": clip(string(raws[i]), 3000), "eof": eofs[i]}
-		if resets[i] {
+		res := &results[i]
+		w := map[string]interface{}{"case": c, "kinds": kinds, "client_bytes": clip(string(res.raw), 3000), "eof": res.eof, "hung": res.hung, "write_stalled": res.writeStalled}
+		if res.reset {
 			r.Count("connections_ended_by_reset", 1)
 		}
-		if !eofs[i] {
+		if res.notRun || res.dialFailed {
 			r.CaseS(key, false)
-			r.Count("watchdog_skipped", 1)
+			if res.notRun {
+				r.Count("not_run_after_repeated_hangs", 1)
+			} else {
+				r.Count("dial_failed", 1)
+			}
 			continue
 		}
-		raw := raws[i]
+		// A connection that was abandoned (res.hung) is judged on what was received, like one
+		// that ended by reset: a cut-off tail is tolerated, everything before it is not.
+		raw := res.raw
+		cut := res.reset || res.hung != ""
 		answered := 0
 		ok := true
 		pos := 0
+		lastRespClose, lastCloseDelimited, tailCut := false, false, false
 		for pos < len(raw) {
 			if answered >= len(c.Reqs) {
 				r.Violation("more-responses-than-requests:after:"+c.Reqs[len(c.Reqs)-1].Kind, fmt.Sprintf("%d bytes follow the last request's response", len(raw)-pos), w)
@@ -299,8 +398,11 @@ func c28(r *vkit.Run) {
 				minor = 0
 			}
 			resp, n, rej := http1.ParseResponse(raw[pos:], method, minor)
-			if rej != nil && rej.Incomplete && resets[i] {
-				r.Count("tail_cut_by_reset", 1)
+			if rej != nil && rej.Incomplete && cut {
+				tailCut = true
+				if res.reset {
+					r.Count("tail_cut_by_reset", 1)
+				}
 				break
 			}
 			if rej != nil {
@@ -333,6 +435,15 @@ func c28(r *vkit.Run) {
 				break
 			}
 			answered++
+			lastCloseDelimited = resp.CloseDelimited
+			lastRespClose = false
+			for _, v := range http1.Get(resp.Fields, "Connection") {
+				for _, t := range strings.Split(v, ",") {
+					if strings.EqualFold(strings.TrimSpace(t), "close") {
+						lastRespClose = true
+					}
+				}
+			}
 			if c28Terminal(q.Kind) && pos < len(raw) {
 				r.Violation("response-after-connection-ending-request:"+q.Kind, fmt.Sprintf("%d bytes follow the response to a %s request", len(raw)-pos, q.Kind), w)
 				ok = false
@@ -340,6 +451,36 @@ func c28(r *vkit.Run) {
 			}
 			if resp.CloseDelimited {
 				break
+			}
+		}
+		if res.hung != "" {
+			// Everything was offered to bfe and nothing came back for c28Grace (or the exchange hit
+			// c28Cap), yet bfe neither closed nor reset the connection. If the last complete final
+			// response ends the connection (the request was one bfe cannot continue after, the
+			// request or the response said "Connection: close", or the response body is delimited by
+			// the close), the close is owed right after that response: the property is violated.
+			// Any other hang gives no verdict for this case only.
+			r.Count("connections_abandoned_open:"+res.hung, 1)
+			reason := ""
+			if ok && !tailCut && answered > 0 {
+				switch q := c.Reqs[answered-1]; {
+				case c28Terminal(q.Kind):
+					reason = "request-ending-the-connection"
+				case answered == len(c.Reqs):
+					reason = "connection-close-request"
+				case lastCloseDelimited:
+					reason = "close-delimited-response"
+				case lastRespClose:
+					reason = "connection-close-response"
+				}
+			}
+			if reason != "" {
+				k := c.Reqs[answered-1].Kind
+				r.Violation("connection-not-closed-after:"+reason+":"+k,
+					fmt.Sprintf("response #%d (to a %s request) ends the connection (%s), but %v after the last byte bfe has neither closed nor reset the connection (%s)",
+						answered-1, k, reason, c28Grace, res.hung), w)
+			} else if ok {
+				r.Count("hung_without_verdict", 1)
 			}
 		}
 		for j := range c.Reqs {
@@ -372,6 +513,9 @@ func c28(r *vkit.Run) {
 		if v != 0 {
 			r.Violation("panic-counter:"+k, fmt.Sprintf("%s=%d", k, v), nil)
 		}
+	}
+	if n := r.Counter("not_run_after_repeated_hangs"); n > 0 {
+		r.Inconclusive(fmt.Sprintf("bfe left %d connections open until the client abandoned them (%v of silence); the remaining %d cases were not run", hungTotal.Load(), c28Grace, n))
 	}
 	if r.Replay == "" && r.Counter("connections_fully_answered") == 0 {
 		r.Inconclusive("no pipelined connection was answered completely")
